@@ -527,7 +527,11 @@ locals that `e` does not otherwise read (`postsIndep e`, `postsTyped c e`).  Und
 * C side: `evalCH` of `e` gives the value `evalC` gives for `unhyb k e` in a state binding the temporaries to the
   old values, and applies the postfix operations in order;
 * the emitted effect (postfix entries rendered in front of the assignment, pulled there by `chk`) executed by
-  `execIL` from an `Inv`-related state ends in a state `Inv`-related to the result of `execCH`. -/
+  `execIL` from an `Inv`-related state ends in a state `Inv`-related to the result of `execCH`.
+  (`Inv` = `C05.Inv`, the two-state invariant of `Lemmas/StmtState.lean`, as re-stated for assignable immediates: the
+  IL local of every registered immediate letter holds the C side's CURRENT immediate; the `imm` components of the two
+  states are not related.  Hypothesis and conclusion of `decl_post_sim(_closed)`, `assign_post_sim(_closed)`,
+  `vcall_usr_sim(_closed)` changed together.) -/
 
 /-- compile side of the fragment -/
 theorem compileExprH_unhyb {env : CEnv} (hcfg : env.cfg.literalTypeBySuffixOnly = false) {e : CExpr} {st st' : HSt}
@@ -632,7 +636,7 @@ theorem sinv_withTmps {c : Ctx} {σ : MState} {k : Nat} {posts : List (String ×
 theorem wfHypT_of_static (ms : MacroSem) {c : Ctx} {k : Nat} {e : CExpr}
     (h : WFES (ctxWithTmps c k (postsOf e)) (unhyb k e) = true) :
     WFHypT ms (fun σ e => WFE σ e = true) c k e :=
-  fun _ _ hs ht hev => C05.WFE_of_static ms (sinv_withTmps hs ht) _ h hev
+  fun _ _ hs hi ht hev => C05.WFE_of_static ms (sinv_withTmps hs ht) hi _ h hev
 
 /-- `T n = e;` on the fragment, closed: all side conditions are decidable checks on the program text -/
 theorem decl_post_sim_closed {ms : MacroSem} (hms : MsOK ms) {c : Ctx} {env : CEnv}
@@ -672,7 +676,7 @@ def fragStmt : CStmt := .decl u32 "x" (some fragRhs)
 def fragState : MState := { (default : MState) with locals := [("i", .bv 32 7), ("j", .bv 32 3)] }
 
 theorem fragInv : C05.Inv fragCtx fragState fragState := by
-  refine ⟨C05.StRel.refl _, ⟨?_, ?_, ?_⟩, ?_⟩
+  refine ⟨C05.StRel.refl _, ⟨?_, ?_, ?_⟩, ?_, ?_, ?_⟩
   · intro n t v hn hv
     rcases C05.lookupS_two hv with ⟨rfl, rfl⟩ | ⟨rfl, rfl⟩
     · have : t = u32 := by revert hn; simp [fragCtx, lookupS]; exact fun h => h.symm
@@ -681,6 +685,7 @@ theorem fragInv : C05.Inv fragCtx fragState fragState := by
       subst this; exact ⟨_, rfl⟩
   · intro l hl; cases hl
   · intro ov ho; cases ho
+  · intro l hl; cases hl
   · intro n hn
     cases hl : lookupS n fragState.locals with
     | none => rfl
@@ -690,6 +695,7 @@ theorem fragInv : C05.Inv fragCtx fragState fragState := by
         rw [this] at hn; cases hn
       · have : isTmp "j" = false := by decide
         rw [this] at hn; cases hn
+  · intro l hl; cases hl
 
 theorem msOK_noMacros : MsOK noMacros :=
   fun _ _ _ => ⟨fun _ => rfl, fun _ _ h => by cases h⟩
@@ -835,10 +841,10 @@ theorem vcall_usr_sim_closed {ms : MacroSem} (hms : MsOK ms) {c : Ctx} {env : CE
     ∃ effIL σIL', eff = some effIL ∧ bare = [] ∧ ExecIL ms effIL σIL σIL' ∧ C05.Inv c σC' σIL' ∧
       st'.pending = st.pending := by
   refine vcall_usr_correct (C05.exprOK_of_C02 hms) henv hcomp hfrag hnop ?_ hsrc hinv hex
-  intro e he σ vC hs hev
+  intro e he σ vC hs hi hev
   simp only [List.mem_singleton] at he
   subst he
-  exact C05.WFE_of_static ms hs e hwf hev
+  exact C05.WFE_of_static ms hs hi e hwf hev
 
 /-! ### non-vacuity and witnesses for section 8 -/
 
